@@ -53,6 +53,9 @@ static void body(void) {
 
 	V_ASSUME(i >= PT_LO && i <= PT_HI && i < CV_NTOT);
 	V_ASSUME(k <= K_MAX && l <= K2_MAX);
+#ifdef K_MIN
+	V_ASSUME(k >= K_MIN);
+#endif
 	V_ASSUME(IN.gx < CV_P && IN.gy < CV_P && IN.rx < CV_P && IN.ry < CV_P);
 	r = env_curve_init();
 	V_ASSERT(0 == r, "curve constructor succeeds");
